@@ -101,7 +101,7 @@ theorem lin_append_only {c c' : Config V ρ} {s : List Tid} (ex : Exec c s c') :
 other method reads it plainly (it must not run concurrently with anything — it is not among the operations the
 property names); `IterateFrom` traverses without the lock; `MergeMPTChanges` enters three critical sections
 (reads root and store, then locks) and writes a field of the store object without the store's lock. -/
-def outOfScope : List String := ["SetVersion", "IterateFrom", "MergeMPTChanges"]
+def outOfScope : List String := ["IterateFrom", "MergeMPTChanges", "SetVersion"]  -- sorted, like the generated tables
 
 /-- the claimed operations: every other exported method of `MerklePatriciaTrie` (with its callee closure) -/
 def mptScope : List Method := mpt.filter (fun m => m.exported && !outOfScope.contains m.name)
@@ -131,11 +131,12 @@ theorem mpt_excluded_break :
 /-- pinned reading of the extractor output (DESIGN.md §3.2): `GetNodeValueRaw` holds the read lock to the end of
 its body, `Insert`/`Delete` the write lock, `SaveChanges` spawns one goroutine that touches only `Version` -/
 theorem mpt_pinned :
-    mpt_GetNodeValueRaw.lock = .read ∧ mpt_GetNodeValueRaw.deferred = true ∧ mpt_GetNodeValueRaw.mutex = "mutex" ∧
+    mpt_GetNodeValueRaw.lock = .read ∧ mpt_GetNodeValueRaw.deferred = true ∧ mpt_GetNodeValueRaw.mutex = mptInfo.primary ∧
     mpt_Insert.lock = .write ∧ mpt_Delete.lock = .write ∧ mpt_Iterate.lock = .read ∧
     mpt_GetChanges.lock = .read ∧ mpt_GetChangeCount.lock = .read ∧ mpt_SaveChanges.lock = .read ∧
     mpt_SaveChanges.goroutines.map (·.fields) = [["Version"]] ∧
-    (mpt_GetNodeValueRaw.accesses.filter (fun a => a.field == "missingNodeKeys")).all (fun a => a.sub == "missingMutex") = true := by
+    (mpt_GetNodeValueRaw.accesses.filter (fun a => a.field == "missingNodeKeys")).all
+      (fun a => a.subId != 0 && a.sub != mptInfo.primary && mptInfo.mutexes.contains a.sub) = true := by
   decide +kernel
 
 /-- the objects reached through fields are internally synchronised: every exported method of the change
@@ -158,12 +159,11 @@ in the scope this is `mpt_table_ok` again.) -/
 
 theorem mpt_methods_status :
     (mpt.filter (·.exported)).map (fun m => (m.name, tableOK (m :: mptScope))) =
-      [("Cache", true), ("GetMissingNodeKeys", true), ("SetNodeDB", true), ("GetNodeDB", true), ("SetVersion", false),
-       ("GetVersion", true), ("GetRoot", true), ("GetNodeValue", true), ("GetNodeValueRaw", true), ("Insert", true),
-       ("Delete", true), ("GetChanges", true), ("GetDeletes", true), ("GetChangeCount", true), ("SaveChanges", true),
-       ("Iterate", true), ("IterateFrom", false), ("PrettyPrint", true), ("GetAllMissingNodes", true),
-       ("HasMissingNodes", true), ("Validate", true), ("MergeMPTChanges", false), ("MergeChanges", true),
-       ("MergeDB", true)] := by
+      [("Cache", true), ("Delete", true), ("GetAllMissingNodes", true), ("GetChangeCount", true), ("GetChanges", true),
+       ("GetDeletes", true), ("GetMissingNodeKeys", true), ("GetNodeDB", true), ("GetNodeValue", true),
+       ("GetNodeValueRaw", true), ("GetRoot", true), ("GetVersion", true), ("HasMissingNodes", true), ("Insert", true),
+       ("Iterate", true), ("IterateFrom", false), ("MergeChanges", true), ("MergeDB", true), ("MergeMPTChanges", false),
+       ("PrettyPrint", true), ("SaveChanges", true), ("SetNodeDB", true), ("SetVersion", false), ("Validate", true)] := by
   decide +kernel
 
 /-- `SetVersion`: a concrete conflicting pair — its atomic store of `Version` (field 5, no lock) against the plain
@@ -192,7 +192,7 @@ write lock AND (since 0a1942f) the store's own mutex `db.mutex` -/
 theorem mergeMPTChanges_status :
     mpt_MergeMPTChanges.sections = 3 ∧
     (mpt_MergeMPTChanges.accesses.filter (fun a => a.kind == .innerWrite)).map
-      (fun a => (a.field, a.callee, a.mode, a.sub)) = [("db", "version", .write, "db.mutex")] ∧
+      (fun a => (a.field, a.callee, a.mode, a.sub)) = [("db", "version", .write, "db." ++ levelNodeDBInfo.primary)] ∧
     levelNodeDB_GetDBVersion.accesses.map (fun a => (a.field, a.fid, a.kind, a.mode)) = [("version", 6, .read, .read)] := by
   decide +kernel
 
@@ -280,21 +280,14 @@ example : ∀ t p, p ∈ (fun (t : Tid) => match t with
 
 /-! ## the original code (commit 70d872e) -/
 
-/-- hand-copied from the table the extractor produces for commit 70d872e: `addMissingNodeKeys` appended to
-`missingNodeKeys` with no lock of its own ... -/
-def oldAddMissingNodeKeys : Method :=
-  { mpt_addMissingNodeKeys with
-      lock := .none, mutex := "", regionStmts := 0,
-      accesses := [
-        { field := "missingNodeKeys", fid := 6, kind := .append, mode := .none, sub := "", subId := 0, callee := "", via := "", goroutine := 0, line := 79 },
-        { field := "missingNodeKeys", fid := 6, kind := .read, mode := .none, sub := "", subId := 0, callee := "", via := "", goroutine := 0, line := 79 } ] }
-
-/-- ... and the exported reader `GetNodeValueRaw` reached it through `getNode` holding only the READ lock -/
+/-- hand-copied from the table the extractor produces for commit 70d872e: `getNode` appended to `missingNodeKeys`
+with no lock of its own, and the exported reader `GetNodeValueRaw` reached it holding only the READ lock (stated over the
+exported method with its helpers inlined, so that it does not depend on helper names) -/
 def oldGetNodeValueRaw : Method :=
   { mpt_GetNodeValueRaw with
       accesses := mpt_GetNodeValueRaw.accesses.map (fun a => if a.fid == 6 then unsub a else a) }
 
-def mptOld : List Method := [oldAddMissingNodeKeys, oldGetNodeValueRaw]
+def mptOld : List Method := [oldGetNodeValueRaw]
 
 theorem mptOld_not_ok : ¬ TableOK mptOld := by decide +kernel
 
